@@ -35,3 +35,7 @@ check('C14', 'exploration',
       'Sub-scope of generator models x {clean} u {each of 20 unsupported-feature injections at every eligible element}; injected documents that MuJoCo compiles must raise on load or in every native pipeline init; clean documents must load and agree with the source on counts, link types, parent order, actuator indices, init_q and pose.',
       'Feature list from the property statement; MuJoCo compile filters illegal documents (discarded and counted).',
       'bounded exhaustive enumeration of configurations x injection sites', 'DESIGN.md 4/C14')
+check('C11', 'exploration',
+      'All actuator lists of length 0-2 (3 in thorough, plus lists of 10) over joint x kind x ctrl-limited x force-limited on 4 base models (incl. free root before the actuated joints, stacked joints, two roots) x 4 states x full ctrl grid containing the range bounds exactly; compared with MuJoCo qfrc_actuator; exact zero on un-actuated dofs, monotone along each control, constant outside the control range.',
+      'MuJoCo actuator model is the reference; piecewise-linear dependence with breakpoints in or bracketed by the grid.',
+      'bounded exhaustive enumeration of actuator lists x ctrl grid, reference-engine oracle', 'DESIGN.md 4/C11')
